@@ -37,6 +37,7 @@ fn explain(error_reference: &str) -> String {
         "symbolic_permission_symbol" => "Enountered an invalid permission symbol",
         "unsigned_integer" => "Expected an unsigned integer",
         "string" => "Expected a string",
+        "unsupported_option" => "This option is not supported by LiPE",
         unknown => unknown,
     }
     .into()
